@@ -32,9 +32,13 @@ CHECKS["C12"] = dict(
           "4 flags x real 14-bit counts around the wrap; the pinned tree's behaviour (group left in place after LAST) is kept "
           "as AsIs and must violate OpenUnused. Every history of length 3 and simulated histories of depth 12 are replayed "
           "through the real packet_generator (outputs identified by payload bytes, three secondary-header lengths), and random "
-          "long multi-APID histories run on the real generator are validated against the same Step action by Trace_Segments."),
+          "long multi-APID histories run on the real generator are validated against the same Step action by Trace_Segments. "
+          "Half of the replayed histories run under options that change what is delivered but not the reassembly (parse_bad_pkts=False, "
+          "a definition not recognising one APID with / without error reporting). Thorough tier: Apalache shows the invariants "
+          "(strengthened by OpenDisjoint, Fresh, OpenAscending) inductive for histories of any length (Ind_Segments.tla), and TLC that "
+          "the annotated module refines Segments.tla."),
     note="Warnings are compared as per-history counts of the two warning kinds. " + TRUSTED,
-    technique="TLA+ state-machine spec + TLC exhaustive histories; behaviour export (BFS + simulation) replayed into code; trace validation",
+    technique="TLA+ state-machine spec + TLC exhaustive histories; behaviour export (BFS + simulation) replayed into code; trace validation; Apalache inductive invariant (thorough)",
     design="5 C12")
 
 CHECKS["C03"] = dict(
